@@ -124,16 +124,17 @@ pub fn build(spec: &ElfSpec) -> ElfImage {
     let mapped = data_off + gap + 0x1000;
     let file_mapped = data_off + 0x1000;
     let total = if spec.sections && spec.sections_at_end { file_mapped + 0x1000 } else { file_mapped };
-    // appended segment: file offset at the (page-aligned) end of the file, virtual address three pages
-    // above everything else
-    let moved: Option<(u64, u64, u64)> = if spec.moved_tables { Some((total, mapped + 0x3000, 0x1000)) } else { None };
+    // appended segment: file offset at the (page-aligned) end of the file, virtual address directly
+    // above everything else (where such tools put it); the two differ whenever the image has a
+    // reserved gap or an unmapped section page, and always by the link base
+    let moved: Option<(u64, u64, u64)> = if spec.moved_tables { Some((total + if total == mapped { 0x1000 } else { 0 }, mapped, 0x1000)) } else { None };
     let (total, mapped) = match moved {
         Some((mo, mv, ml)) => (mo + ml, mv + ml),
         None => (total, mapped),
     };
     // where the note and the string table sit: (file offset, vaddr - file offset)
     let (tab_off, tab_dv) = match moved {
-        Some((mo, mv, _)) => (mo, mv - mo),
+        Some((mo, mv, _)) => (mo, mv.wrapping_sub(mo)),
         None => (0, 0),
     };
     let mut f = vec![0u8; total as usize];
@@ -181,7 +182,7 @@ pub fn build(spec: &ElfSpec) -> ElfImage {
         dynv.push((DT_SONAME, soname_idx));
     }
     let strtab_idx = dynv.len();
-    dynv.push((DT_STRTAB, spec.link_base + dynstr_off + tab_dv));
+    dynv.push((DT_STRTAB, spec.link_base.wrapping_add(dynstr_off).wrapping_add(tab_dv)));
     dynv.push((DT_STRSZ, dynstr_len));
     let mut debug_idx = None;
     if spec.dt_debug {
@@ -220,7 +221,7 @@ pub fn build(spec: &ElfSpec) -> ElfImage {
     }
     let lb = spec.link_base;
     for (i, (ty, fl, o, sz, al, dv)) in ph.iter().enumerate() {
-        phdr(&mut f, phoff as usize + i * 56, *ty, *fl, *o, lb + *o + *dv, *sz, *al);
+        phdr(&mut f, phoff as usize + i * 56, *ty, *fl, *o, lb.wrapping_add(*o).wrapping_add(*dv), *sz, *al);
     }
 
     // sections
@@ -249,7 +250,7 @@ pub fn build(spec: &ElfSpec) -> ElfImage {
         shdr2(&mut f, base + i * 64, n_text, 1, 2 | 4, lb + text_off + skip, text_off + skip, text_len - skip, 0, 16, 0);
         i += 1;
         if spec.build_id.is_some() {
-            shdr2(&mut f, base + i * 64, n_note, 7, 2, lb + note_off + tab_dv, note_off, note_len, 0, 4, 0);
+            shdr2(&mut f, base + i * 64, n_note, 7, 2, lb.wrapping_add(note_off).wrapping_add(tab_dv), note_off, note_len, 0, 4, 0);
             i += 1;
         }
         let shstr_idx = i;
@@ -258,7 +259,7 @@ pub fn build(spec: &ElfSpec) -> ElfImage {
         let dynstr_sec_idx = i + 1;
         shdr2(&mut f, base + i * 64, n_dynamic, 6, 3, lb + dyn_off + gap, dyn_off, dyn_len, dynstr_sec_idx as u32, 8, 16);
         i += 1;
-        shdr2(&mut f, base + i * 64, n_dynstr, 3, 2, lb + dynstr_off + tab_dv, dynstr_off, dynstr_len, 0, 1, 0);
+        shdr2(&mut f, base + i * 64, n_dynstr, 3, 2, lb.wrapping_add(dynstr_off).wrapping_add(tab_dv), dynstr_off, dynstr_len, 0, 1, 0);
         i += 1;
         shnum = i as u16;
         put16(&mut f, 62, shstr_idx as u16);
@@ -302,7 +303,7 @@ pub fn build(spec: &ElfSpec) -> ElfImage {
         scratch_len,
         entry_off,
         moved,
-        dynstr_vaddr: dynstr_off + tab_dv,
+        dynstr_vaddr: dynstr_off.wrapping_add(tab_dv),
         spec: spec.clone(),
     }
 }
